@@ -15,7 +15,7 @@ import kernel
 from kernel import sexp
 import cases_to_v
 
-SHARD = 300           # cases per coqc process
+SHARD = 300           # cases per coqc process (a module may set its own SHARD)
 JOBS = 4              # concurrent coqc processes
 EVAL_RE = re.compile(r'=\s*"((?:[^"]|"")*)"(?:%string)?\s*:\s*string', re.S)
 
@@ -77,10 +77,21 @@ def fetch_lines(chosen):
     return lines
 
 
+def _big_stack():
+    # long result strings are deep right-nested terms: reading them back / printing them is recursive in coqc
+    import resource
+    soft, hard = resource.getrlimit(resource.RLIMIT_STACK)
+    try:
+        resource.setrlimit(resource.RLIMIT_STACK, (hard, hard))
+    except (ValueError, OSError):
+        pass
+
+
 def run_coqc(V, vfile, timeout_s):
     flags = ["-Q", os.path.join(V, "coq/theories/Spec"), "Patronus", "-Q", os.path.join(V, "coq/theories/Model"), "Patronus"]
     cmd = ["timeout", str(timeout_s), "coqc", "-w", "-notation-overridden,-deprecated-syntactic-definition,-abstract-large-number"] + flags + [vfile]
-    p = subprocess.run(cmd, cwd=os.path.dirname(vfile), stdout=subprocess.PIPE, stderr=subprocess.STDOUT, text=True, encoding="latin-1")
+    p = subprocess.run(cmd, cwd=os.path.dirname(vfile), stdout=subprocess.PIPE, stderr=subprocess.STDOUT, text=True, encoding="latin-1",
+                       preexec_fn=_big_stack)
     return p.returncode, _clean(p.stdout)
 
 
@@ -107,7 +118,7 @@ def crosscheck_handler(V, prop, handler, tier, runs, env):
             f.write(l + "\n")
     # 2. the extracted model's text
     with open(sample_file, "rb") as fin:
-        p = subprocess.run([os.path.join(V, ".build", "ocaml", "driver"), handler], stdin=fin, stdout=subprocess.PIPE, stderr=subprocess.PIPE,
+        p = subprocess.run([os.environ.get("VERIF_KERNEL_DRIVER") or os.path.join(V, ".build", "ocaml", "driver"), handler], stdin=fin, stdout=subprocess.PIPE, stderr=subprocess.PIPE,
                            env=dict(env, VERIF_EMIT_MODEL="1"), timeout=3000)
     if p.returncode != 0:
         raise KernelInfra("driver (VERIF_EMIT_MODEL=1) failed: " + p.stderr.decode("latin-1")[-2000:])
@@ -121,15 +132,17 @@ def crosscheck_handler(V, prop, handler, tier, runs, env):
     # 3. the kernel's text
     shards = []
     skipped = {}
-    for s0 in range(0, len(lines), SHARD):
-        vfile = os.path.join(kdir, "Cases_%s_%d.v" % (handler, s0 // SHARD))
-        done, sk = cases_to_v.translate(handler, lines[s0:s0 + SHARD], vfile, first_index=s0)
+    jobs = int(os.environ.get("VERIF_KERNEL_JOBS", "0") or 0) or JOBS
+    shard_n = min(getattr(mod, "SHARD", SHARD), max(25, -(-len(lines) // jobs)))
+    for s0 in range(0, len(lines), shard_n):
+        vfile = os.path.join(kdir, "Cases_%s_%d.v" % (handler, s0 // shard_n))
+        done, sk = cases_to_v.translate(handler, lines[s0:s0 + shard_n], vfile, first_index=s0,
+                                        max_chars=getattr(mod, "MAX_CASE_CHARS", {}).get(tier))
         skipped.update(sk)
         if done:
             shards.append((vfile, done))
     per_shard_timeout = 600 if tier == "quick" else 3000
     kernel_txt = {}
-    jobs = int(os.environ.get("VERIF_KERNEL_JOBS", "0") or 0) or JOBS
     with concurrent.futures.ThreadPoolExecutor(max_workers=jobs) as ex:
         futs = {ex.submit(run_coqc, V, vf, per_shard_timeout): (vf, done) for vf, done in shards}
         for fut in concurrent.futures.as_completed(futs):
@@ -156,6 +169,8 @@ def crosscheck_handler(V, prop, handler, tier, runs, env):
             raise KernelInfra("no kernel value for sampled case %d" % k)
         if kernel_txt[k] == extracted[k]:
             agree += 1
+        elif hasattr(mod, "excuse") and mod.excuse(kernel_txt[k], extracted[k]):
+            noout += 1       # declared not comparable by the module (e.g. the kernel ran with less fuel and ran out)
         elif res["status"] == "fail":
             excused += 1     # the case is reported through the property oracle anyway
         else:
